@@ -4,6 +4,7 @@ package main
 
 import (
 	"fmt"
+	"go/types"
 	"strings"
 
 	"golang.org/x/tools/go/ssa"
@@ -301,4 +302,211 @@ func ruleListStoresIDsPredicate(e *Engine, r *Reporter) {
 		}
 		r.Check(found, be+".ListStores | id filter", e.pos(fn.Pos()), detail, detail+": a caller confined to a set of stores can be shown stores outside it")
 	}
+}
+
+// ---- C31: a successful WriteAssertions always persisted; copies of assertions are complete ---------------
+
+func containsExec(fn *ssa.Function, depth int) bool {
+	found := false
+	eachInstr(fn, true, func(in ssa.Instruction) {
+		if c, ok := in.(ssa.CallInstruction); ok {
+			if o := calleeObj(c); o != nil && (o.Name() == "ExecContext" || o.Name() == "Exec") {
+				found = true
+			}
+		}
+	})
+	return found
+}
+
+func ruleAssertionsWriteAlwaysPersists(e *Engine, r *Reporter) {
+	r.Rule("assertions-write-always-persists", "in every backend a WriteAssertions call that reports success has replaced the stored list: no nil-error return is reachable without passing the upsert (SQL) or the map update (memory) — an empty list included", 4)
+	for _, be := range append([]string{"memory"}, sqlBackends...) {
+		recv := "Datastore."
+		if be == "memory" {
+			recv = "MemoryBackend."
+		}
+		fn := e.Func("pkg/storage/"+be, recv+"WriteAssertions")
+		persist := func(in ssa.Instruction) bool {
+			if _, ok := in.(*ssa.MapUpdate); ok {
+				return true
+			}
+			c, ok := in.(ssa.CallInstruction)
+			if !ok {
+				return false
+			}
+			if o := calleeObj(c); o != nil && (o.Name() == "ExecContext" || o.Name() == "Exec") {
+				return true
+			}
+			for _, a := range c.Common().Args {
+				if mc, ok := a.(*ssa.MakeClosure); ok {
+					if f, ok := mc.Fn.(*ssa.Function); ok && containsExec(f, 1) {
+						return true
+					}
+				}
+			}
+			if g := staticCallee(c); g != nil && short(pkgOf(g)) != "" && strings.HasPrefix(short(pkgOf(g)), "pkg/storage") && len(g.Blocks) > 0 && g != fn && containsExec(g, 1) {
+				return true
+			}
+			return false
+		}
+		has := false
+		eachInstr(fn, false, func(in ssa.Instruction) {
+			if persist(in) {
+				has = true
+			}
+		})
+		if !has {
+			blind("assertions-write: no persisting action found in %s", fname(fn))
+		}
+		bad := ""
+		for _, rs := range returnSites(fn) {
+			if len(rs.Results) != 1 || !isNilConst(rs.Results[0]) {
+				continue
+			}
+			if reach, _ := reachable(fn, nil, func(in ssa.Instruction) bool { return in == rs.At }, cutSpec{instr: persist}); reach {
+				bad = e.instrPos(rs.At)
+			}
+		}
+		r.Check(bad == "", be+".WriteAssertions | success implies persisted", e.pos(fn.Pos()), "every `return nil` lies behind the upsert / map update", "the success return at "+bad+" is reachable without persisting: the previously written list stays readable although the write was acknowledged")
+	}
+}
+
+// ruleProtoCopyComplete: a function in the storage layer that rebuilds a protobuf message of type T from
+// another T field by field (a "defensive copy") must carry every field.
+func ruleProtoCopyComplete(e *Engine, r *Reporter, pkgPrefix string, floorNote string) {
+	r.Rule("proto-copy-complete", "where "+pkgPrefix+" code rebuilds a protobuf message T from the getters/fields of another T (field-by-field copy), every exported field of T is set — a forgotten field silently drops data", 0)
+	for _, fn := range e.Fns {
+		if !strings.HasPrefix(short(pkgOf(fn)), pkgPrefix) || isTestSupport(pkgOf(fn)) {
+			continue
+		}
+		ord := 0
+		eachInstr(fn, false, func(in ssa.Instruction) {
+			al, ok := in.(*ssa.Alloc)
+			if !ok {
+				return
+			}
+			nt, ok := types.Unalias(derefType(al.Type())).(*types.Named)
+			if !ok || nt.Obj().Pkg() == nil || !strings.Contains(nt.Obj().Pkg().Path(), "openfga/api/proto") {
+				return
+			}
+			st, ok := nt.Underlying().(*types.Struct)
+			if !ok {
+				return
+			}
+			set := map[string]bool{}
+			fromSame := 0
+			for _, ref := range *al.Referrers() {
+				fa, ok := ref.(*ssa.FieldAddr)
+				if !ok {
+					continue
+				}
+				for _, rr := range *fa.Referrers() {
+					s, ok := rr.(*ssa.Store)
+					if !ok || s.Addr != ssa.Value(fa) {
+						continue
+					}
+					set[fieldName(al.Type(), fa.Field)] = true
+					// does the stored value come from a getter/field of another value of the same type T?
+					if readsFromSameType(s.Val, nt) {
+						fromSame++
+					}
+				}
+			}
+			if fromSame < 2 || fromSame != len(set) {
+				return // not a pure copy of another T (some fields are computed afresh: a construction, not a copy)
+			}
+			var missing []string
+			for i := 0; i < st.NumFields(); i++ {
+				f := st.Field(i)
+				if f.Exported() && !set[f.Name()] {
+					missing = append(missing, f.Name())
+				}
+			}
+			key := fmt.Sprintf("%s | copy of %s #%d", fname(fn), nt.Obj().Name(), ord)
+			ord++
+			r.Check(len(missing) == 0, key, e.instrPos(in), "all exported fields set", fmt.Sprintf("field-by-field copy of %s omits %v: the stored/returned message is not the one given", nt.Obj().Name(), missing))
+		})
+	}
+}
+
+// ---- C30 (and any command): a command object that mutates itself while executing is per-request -------------
+
+func ruleMutatingCommandPerRequest(e *Engine, r *Reporter) {
+	r.Rule("mutating-command-per-request", "a command whose Execute method writes its own fields (e.g. wraps its datastore with the request's contextual tuples) is constructed in the handler that executes it: the receiver of every such call comes from a constructor call in the same function, never from state shared between requests", 1)
+	n := 0
+	for _, fn := range e.Fns {
+		if !strings.HasPrefix(short(pkgOf(fn)), "pkg/server/commands") || fn.Signature.Recv() == nil || fn.Parent() != nil || !strings.HasPrefix(fn.Name(), "Execute") || len(fn.Params) == 0 {
+			continue
+		}
+		recv := fn.Params[0]
+		var wrote []string
+		eachInstr(fn, false, func(in ssa.Instruction) {
+			st, ok := in.(*ssa.Store)
+			if !ok {
+				return
+			}
+			if fa, ok := st.Addr.(*ssa.FieldAddr); ok && fa.X == ssa.Value(recv) {
+				wrote = append(wrote, fieldName(fa.X.Type(), fa.Field))
+			}
+		})
+		if len(wrote) == 0 {
+			continue
+		}
+		for i, cs := range e.allCallSites(fn) {
+			caller := cs.Parent()
+			if isTestSupport(pkgOf(caller)) {
+				continue
+			}
+			args := cs.Common().Args
+			if cs.Common().IsInvoke() || len(args) == 0 {
+				continue
+			}
+			n++
+			fresh := derivesFrom(args[0], func(v ssa.Value) bool {
+				c, ok := v.(*ssa.Call)
+				if !ok {
+					return false
+				}
+				g := staticCallee(c)
+				return g != nil && strings.HasPrefix(short(pkgOf(g)), "pkg/server/commands") && strings.HasPrefix(g.Name(), "New")
+			})
+			shared := derivesFrom(args[0], func(v ssa.Value) bool {
+				_, isFA := v.(*ssa.FieldAddr)
+				_, isGl := v.(*ssa.Global)
+				return isFA || isGl
+			})
+			r.Check(fresh && !shared, fmt.Sprintf("%s | receiver of %s #%d", fname(topLevel(caller)), shortFuncName(fn), i), e.instrPos(cs), "constructed in this handler: "+describe_(args[0]), fmt.Sprintf("%s writes its own fields %v but is executed on %s, which outlives the request: state of one request (its contextual tuples) leaks into the next", shortFuncName(fn), uniq(wrote), describe_(args[0])))
+		}
+	}
+	if n == 0 {
+		blind("mutating-command-per-request: no self-mutating Execute method with a call site found")
+	}
+}
+
+
+// readsFromSameType: v is obtained by a getter / field selection (receiver position) from a value of type *T or T.
+func readsFromSameType(v ssa.Value, nt *types.Named) bool {
+	for i := 0; i < 16; i++ {
+		var next ssa.Value
+		switch x := unwrap(v).(type) {
+		case *ssa.UnOp:
+			next = x.X
+		case *ssa.FieldAddr:
+			next = x.X
+		case *ssa.Field:
+			next = x.X
+		case *ssa.Call:
+			if x.Call.IsInvoke() || len(x.Call.Args) == 0 {
+				return false
+			}
+			next = x.Call.Args[0]
+		default:
+			return false
+		}
+		if types.Identical(derefType(next.Type()), nt) {
+			return true
+		}
+		v = next
+	}
+	return false
 }
